@@ -156,8 +156,25 @@ def escape_roundtrip_jobs(tier):
     return out
 
 
+def name_oom_jobs(tier):
+    J = []
+    shapes = [("at_first", [1, ord("@"), 0]), ("dot_in_label", [3, ord("a"), ord("."), ord("b"), 1, ord("c"), 0]),
+              ("grow32", [32] + [ord("a")] * 30 + [ord("@"), ord("x"), 0]), ("bin_first", [2, 7, ord("\\"), 0])]
+    for nm, w in shapes:
+        for k in (0, 1, 2, 3, 4):
+            if tier == "quick" and nm in ("dot_in_label", "bin_first") and k in (0, 4):
+                continue
+            J.append(dict(name="name_oom_%s_k%d" % (nm, k), harness="name_oom.c",
+                          defines=["-DWIRE=" + ",".join(str(b) for b in w), "-DK=%d" % k],
+                          real=BASE + ["src/lib/record/ares_dns_name.c"], support=["vp_rt.c", "valloc.c", "memloops.c"],
+                          unwind=max(40, len(w) * 4 + 8), witnesses=["end"] + (["parsed"] if k == 0 else []) + (["out of memory"] if (nm == "at_first" and k in (1, 2)) else []),
+                          bound="ares_dns_name_parse of the concrete wire name %s with allocation number %d of the call failing "
+                                "(0 = none): ENOMEM and no name, or exactly the escaped name" % (w if len(w) < 12 else nm, k)))
+    return J
+
+
 def jobs(tier, seed):
-    J = hdr_jobs(tier) + rr_jobs(tier) + escape_roundtrip_jobs(tier)
+    J = hdr_jobs(tier) + rr_jobs(tier) + escape_roundtrip_jobs(tier) + name_oom_jobs(tier)
     for j in J:
         j.setdefault("mem_gb", 6)
     return J
